@@ -38,20 +38,59 @@ func smallMenu(p *plan) []targetSpec {
 	return m
 }
 
-// bigTargets: long slices (maxlen 65535 boundaries; very long unlimited slices in the thorough tier)
-func bigTargets(p *plan, thorough bool) []targetSpec {
+// unlimitedLens: lengths given to every field that carries NO maxlen tag (read from the struct type by
+// the plan): around the powers of two at which a length check could hide (the sibling codecs of the
+// transaction types check 65535). Both codecs must accept them and round-trip byte-identically.
+var unlimitedLens = []int{255, 256, 65535, 65536, 70000}
+
+// longBudget caps the encoded size of one long unlimited slice (memory and time only)
+const longBudget = 8 << 20
+
+// longEligible: can site s (no maxlen tag) be given ln elements within the budget?
+func longEligible(s *site, ln int) bool {
+	return s.MaxLen == 0 && !s.ElemHeavy && s.MinElem > 0 && ln*s.MinElem <= longBudget
+}
+
+// isUnlimitedLen: ln is one of the boundary lengths of the fields without a maxlen tag
+func isUnlimitedLen(ln int) bool {
+	for _, l := range unlimitedLens {
+		if l == ln {
+			return true
+		}
+	}
+	return false
+}
+
+// belowPlanned: is the long value of maxlen-1 elements part of this run for site s? Always in the thorough
+// tier; in the quick tier a third of the fields, rotating with the seed (cost only: maxlen and maxlen+1
+// are always there, and the fields limited to <= 600 get all three lengths from the small menu).
+func belowPlanned(s *site, thorough bool, seed int64) bool {
+	return thorough || (int(seed%3)+3+s.ID)%3 == 0
+}
+
+// bigTargets: long slices (maxlen-1 / maxlen / maxlen+1 of every field limited beyond the small menu's
+// reach; boundary lengths up to 70000 for every field without a limit)
+func bigTargets(p *plan, thorough bool, seed int64) []targetSpec {
 	m := []targetSpec{}
 	for _, s := range p.sites {
 		if s.MaxLen > 600 {
 			m = append(m, targetSpec{s, s.MaxLen, false}, targetSpec{s, s.MaxLen + 1, false})
+			if belowPlanned(s, thorough, seed) {
+				m = append(m, targetSpec{s, s.MaxLen - 1, false})
+			}
 			if thorough {
-				m = append(m, targetSpec{s, s.MaxLen - 1, false}, targetSpec{s, 70000, false}, targetSpec{s, 2 * s.MaxLen, false})
+				m = append(m, targetSpec{s, 70000, false}, targetSpec{s, 2 * s.MaxLen, false})
 			}
 		} else if s.MaxLen == 0 {
-			if thorough {
-				m = append(m, targetSpec{s, 65535, false}, targetSpec{s, 65536, false}, targetSpec{s, 70000, false})
-			} else {
-				m = append(m, targetSpec{s, 3000, false})
+			n := 0
+			for _, ln := range unlimitedLens {
+				if longEligible(s, ln) {
+					m = append(m, targetSpec{s, ln, false})
+					n++
+				}
+			}
+			if n < len(unlimitedLens) {
+				m = append(m, targetSpec{s, 3000, false}) // elements too large for the boundary lengths: a long slice all the same
 			}
 		}
 	}
@@ -99,7 +138,7 @@ func childMain() {
 	prog := openProgress(dir)
 	log := openLog(dir)
 	ev := newEvaluator(c, prog.stage)
-	res := &result{SiteHits: map[string]*[3]int64{}}
+	res := &result{SiteHits: map[string]*[3]int64{}, LongHits: map[string]map[string]int64{}}
 	uniq := map[uint64]struct{}{}
 	seenCase := map[string]bool{}
 
@@ -110,6 +149,14 @@ func childMain() {
 			res.SiteHits[s.Path] = h
 		}
 		h[which]++
+	}
+	longHit := func(s *site, ln int) {
+		h := res.LongHits[s.Path]
+		if h == nil {
+			h = map[string]int64{}
+			res.LongHits[s.Path] = h
+		}
+		h[fmt.Sprint(ln)]++
 	}
 
 	describe := func(obj interface{}) []byte {
@@ -127,6 +174,8 @@ func childMain() {
 	run := func(chunk []*pendingValue) {
 		for _, pv := range chunk {
 			ev.coords = fmt.Sprintf("seed=%d tier=%s codec=%s kind=%s shard=%d value=%d", r.Seed, r.Tier, c.Name, jb.Kind, jb.Shard, pv.vi)
+			violBefore := ev.violTotal()
+			valueDone := false
 			if pv.rec >= jb.Skip {
 				prog.set(pv.rec)
 				obj := pv.obj
@@ -135,6 +184,7 @@ func childMain() {
 				if ok && pv.lay != nil && string(ref) != string(pv.lay.buf) {
 					ev.cnt("walker_mismatch", 1)
 				}
+				valueDone = ok
 			}
 			for k, in := range pv.inputs {
 				rec := pv.recs0 + k
@@ -142,7 +192,18 @@ func childMain() {
 					continue
 				}
 				prog.set(rec)
+				exactBefore := ev.counts[ev.name+".exact_alias_checked"]
 				rk := ev.evalBytes(in.data, mutNames[in.mut])
+				if k == 0 && pv.target != nil && pv.target.site.MaxLen == 0 && isUnlimitedLen(pv.target.ln) {
+					// a field without a maxlen tag at a boundary length: the value was encoded by both encoders and its
+					// encoding read back by both decoders (plain and exact), with equal values and an identical re-encoding
+					s := pv.target.site
+					ev.cnt("unlimited_boundary_values", 1)
+					if valueDone && rk == "ok" && ev.counts[ev.name+".exact_alias_checked"] == exactBefore+1 && ev.violTotal() == violBefore {
+						longHit(s, pv.target.ln)
+						ev.cnt("unlimited_boundary_roundtrip", 1)
+					}
+				}
 				if len(res.Cases) < 4 && !seenCase[rk] && len(in.data) > 0 && len(in.data) <= 96 {
 					seenCase[rk] = true
 					res.Cases = append(res.Cases, map[string]interface{}{"codec": c.Name, "mutation": mutNames[in.mut],
@@ -222,7 +283,7 @@ func childMain() {
 			}
 		}
 	case "big":
-		for k, t := range bigTargets(p, !r.Quick()) {
+		for k, t := range bigTargets(p, !r.Quick(), r.Seed) {
 			t := t
 			if k%jb.NValues != jb.Shard {
 				continue
